@@ -145,7 +145,7 @@ def call_args(call):
 _MODULE_COUNTER = [0]
 
 
-def build_module(sigs, scratch, with_methods=True, body=None, prefix="vfsig", header=""):
+def build_module(sigs, scratch, with_methods=True, body=None, prefix="vfsig", header="", with_async=False):
     """Write one module defining f_<i> (and class K with methods m_<i>) for
     every signature; import it; return (module, [functions], [bound methods])."""
     _MODULE_COUNTER[0] += 1
@@ -153,6 +153,9 @@ def build_module(sigs, scratch, with_methods=True, body=None, prefix="vfsig", he
     lines = [header] if header else []
     for i, sig in enumerate(sigs):
         lines.append("def f_%d(%s):\n    %s\n" % (i, sig_source(sig), body or "return dict(locals())"))
+    if with_async:
+        for i, sig in enumerate(sigs):
+            lines.append("async def a_%d(%s):\n    %s\n" % (i, sig_source(sig), body or "return dict(locals())"))
     if with_methods:
         lines.append("class K:\n    def __init__(self, tag=None):\n        self.vf_tag = tag\n")
         for i, sig in enumerate(sigs):
